@@ -1,7 +1,7 @@
 #!/bin/bash
 # Runs every registered quick (or thorough) check on /repo and reports; used before committing evidence.
 # usage: tools/run_all.sh [quick|thorough] [ids...]
-cd /verif
+cd "$(dirname "$0")/.."
 tier=${1:-quick}; shift
 ids="$@"
 if [ -z "$ids" ]; then ids=$(/venv/bin/python -c "import json;print(' '.join(c['property_id'] for c in json.load(open('MANIFEST.json'))['checks']))"); fi
